@@ -236,6 +236,16 @@ theorem C19_checkCow (ops : List COp) (obs : List CObs) (h : cowObs CState.init 
     checkCow {} obs = none :=
   checkCow_model ops CState.init {} obs CReach.init ⟨rfl, rfl, rfl, rfl, by simp [CState.init], rfl⟩ h
 
+/-- **publication in chunks loses nothing**: `loader.load` hands the shards it has loaded so far to `replace` whenever
+    5 s have passed and the rest at the end. Replacing with chunk `b1` and then with chunk `b2` gives the same map as
+    replacing with `b1 ++ b2` at once — provided every loaded shard is in exactly one chunk, which is what the loader's
+    "store into the *current* batch, under the mutex" guarantees (a shard stored into an already published batch is in
+    no chunk: lost; the harness's slow-load scenario checks the real loader for that). -/
+theorem chunked_publication (m : List (Nat × Nat)) (b1 b2 : List (Nat × Bool)) (n : Nat) :
+    expectedAfter (expectedAfter m (assignIds b1 n).1) (assignIds b2 (assignIds b1 n).2).1 =
+      expectedAfter m (assignIds (b1 ++ b2) n).1 := by
+  rw [assignIds_append, expectedAfter_append]
+
 /-! ## non-vacuity -/
 
 /-- `foo_v16.00000.zoekt` ↦ (`foo`, 16) -/
